@@ -3,7 +3,9 @@
 //   seteuid,s:<name> | seteuid,i:<n>      seteuid("<name>") / seteuid(<n>)
 //   export,<oid>                          export_uid(<object oid>)
 //   load,<path>                           load_object(<path>)
-//   call,<path> | calla,<path> | tellroom,<path>   call_other(<path>, ..) / call_other(({ <path> }), ..) / tell_room(<path>, ..)
+//   call,<path> | calla,<path> | tellroom,<path> | filter,<path>
+//                                         call_other(<path>, ..) / call_other(({ <path> }), ..) / tell_room(<path>, ..) /
+//                                         filter(({ 1 }), "fn", <path>)
 //   clone,<newoid>,<path>                 clone_object(<path>, <newoid>)
 //   dest,<oid>                            destruct(<object oid>)
 //   reload,<oid>                          reload_object(<object oid>)
@@ -143,7 +145,7 @@ string do_op (string s) {
     if (!o) r = "nobj";
     else e = catch (r = export_uid (o));
     break;
-  case "call": case "calla": case "tellroom":
+  case "call": case "calla": case "tellroom": case "filter":
     // other efuns that reach load_object through find_or_load_object with this object as current_object: call_other on a
     // file name (also inside an array of targets), tell_room on a file name.  Same expectations as `load` (the plugin
     // compares them with the model's load op)
@@ -151,6 +153,7 @@ string do_op (string s) {
     if ((!o || !stringp (o->my_oid ())) && REG->get (bp_oid (w[1]))) { r = "nobj"; break; }
     if (w[0] == "call") e = catch (call_other (w[1], "my_oid"));
     else if (w[0] == "calla") e = catch (call_other (({ w[1] }), "my_oid"));
+    else if (w[0] == "filter") e = catch (filter (({ 1 }), "my_oid", w[1]));   // callback descriptor with a file name
     else e = catch (tell_room (w[1], ""));
     o = find_object (w[1]);
     // "could not find the object" of these efuns = the 0 of load_object; the errors of load_object itself stay errors
